@@ -125,14 +125,19 @@ CHECKS["C17"] = {
     "quick": {"match": "^H17", "budget": 600},
     "thorough": {"match": "^[HT]17", "budget": 3000, "query_timeout_ms": 120000},
     "replay": "model",
+    "native_replay": ["H17d_Deep_ExtendDigest", "H17e_Deep_ExtendEventLog", "H17f_Deep_TwoRequestsOneIndex"],
     "what": "rtmr.ExtendDigestClient / ExtendEventLogClient with index full int64, digest of symbolic length 0..64, hash algorithm symbolic, event "
             "log of symbolic length 0..128, against a model TSM (harness configfsi.Client) with four registers of symbolic content; the dependency "
             "go-configfs-tsm/rtmr.ExtendDigest is replaced by its contract; asserted: invalid request => error and zero operations, valid => exactly "
-            "one extend of exactly the digest (or SHA-384 of the log) on the requested index; one inductive step from an arbitrary register state",
-    "bounds": {"index": "full int64", "digest_length": "0..64", "event_log_length": "0..128"},
-    "outside": ["go-configfs-tsm's own entry lookup / creation (replaced by its documented contract)", "the kernel's configfs semantics"],
+            "one extend of exactly the digest (or SHA-384 of the log) on the requested index; one inductive step from an arbitrary register state. "
+            "Deep mode (H17d-f): go-configfs-tsm (rtmr, configfsi) is executed for real against a model configfs tree (entries, index / digest / tcg_map "
+            "files) with no, a matching, another or both entries present: an invalid request performs no tree-changing operation at all (whichever "
+            "function of the dependency the code calls), a valid one re-uses the entry bound to the index or creates and binds exactly one, then "
+            "writes exactly the digest once; two requests for one index leave one entry holding the extend chain in call order",
+    "bounds": {"index": "full int64 (contract mode); {-1,0,1,2,3,4} (deep mode: concrete paths and decimal strings)", "digest_length": "0..64 (46..50 deep)", "event_log_length": "0..128 (0..40 deep)"},
+    "outside": ["the kernel's configfs semantics (model tree: index writable once, digest write extends, 48-byte digests only)"],
     "assumptions": ["rtmr.ExtendDigest of go-configfs-tsm v0.3.2 performs one digest write on the entry bound to the index (contract stub)",
-                    "SHA-384 is a deterministic function of the event log (uninterpreted function)"],
+                    "SHA-384 (every entry point of crypto/sha512) is one model hash function of the message bytes; the specification side calls sha512.Sum384 itself"],
 }
 
 CHECKS["C20"] = {
@@ -149,12 +154,15 @@ CHECKS["C20"] = {
     "outside": ["MaxRetryDelay <= 0 (busy loop / probabilistic termination: the statement's two requirements contradict each other there)",
                 "wall-clock behaviour of the real runtime and scheduler", "delay doubling overflow (needs > 2^32 s of waiting)",
                 "behaviour after more than K consecutive failures (seeded change C20B needs 33 and passes)"],
-    "assumptions": ["Go select semantics: blocks until a case is ready, picks any ready case (model)", "context.WithTimeout's Done channel fires at the deadline (model)"],
+    "assumptions": ["Go select semantics: blocks until a case is ready, picks any ready case (model)", "context.WithTimeout's Done channel fires at the deadline (model)",
+                    "time.After / time.NewTimer(+Stop, Reset) channels fire after their duration of model time; time.Sleep advances model time"],
 }
 
 PKI_ASSUME = [
     "ecdsa.VerifyASN1 = uninterpreted predicate ECDSA_P256(X, Y, digest, r, s) of exactly these five values",
-    "sha256.Sum256 = uninterpreted function of the message bytes (no collision-freeness assumed)",
+    "crypto/sha256 and crypto/sha512 (New/Write/Sum, Sum256, Sum384, crypto.Hash.New) = one model hash per algorithm: initial state, uninterpreted step per "
+    "32-byte block (bytes past the end read as zero), uninterpreted finalisation over state and length; equal messages have equal digests, nothing else is known "
+    "(no collision-freeness assumed)",
     "Certificate.CheckSignature = uninterpreted predicate of (key id, algorithm, signed bytes / document id, r, s)",
     "Certificate.CheckSignatureFrom nil implies SigBy(cert, parent key); Name.String() is a deterministic function of the name",
     "Certificate.Verify = Go's documented path validation over the pools (model: <= 1 intermediate per path)",
@@ -171,8 +179,10 @@ CHECKS["C01"] = {
             "abi.SignatureToDER, Header/TdQuoteBody/EnclaveReportToAbiBytes, extractChainFromQuoteV4, verifyPCKCertificationChain) on a structurally "
             "valid quote with every byte symbolic and an abstract three-certificate chain with symbolic attributes; asserted: err == nil implies "
             "ECDSA_P256(key halves, SHA256(harness's own serialisation of header||body), signature halves), report data = SHA256(key||auth) || 0^32, "
-            "and CertSig(leaf key, ECDSAWithSHA256, harness's own QE report bytes, QE signature halves)",
-    "bounds": {"qe_auth_data_length": "{0, 1, 32} quick, + {31, 33, 64} thorough (hash UF needs a concrete length)", "trusted_pool": "nil / 1 / 2 certificates"},
+            "and CertSig(leaf key, ECDSAWithSHA256, harness's own QE report bytes, QE signature halves). H01g: a two-quote history (a second, different "
+            "quote verified after an accepted first one, fresh options) - the links must hold for the second quote's own bytes and leaf key. H01h: the "
+            "message's integer fields are unconstrained uint32 (not pre-truncated to their wire width): an accepted message has no bit outside the wire format",
+    "bounds": {"qe_auth_data_length": "{0, 1, 32, 33} quick, + {31, 64} thorough", "trusted_pool": "nil / 1 / 2 certificates", "history": "2 verifications"},
     "outside": ["that ECDSA / SHA-256 are unforgeable / collision free (the 'no bit can change' corollary is cryptographic)"],
     "assumptions": PKI_ASSUME,
 }
@@ -186,8 +196,11 @@ CHECKS["C02"] = {
             "with 2..4 PEM blocks of symbolic type and a symbolic tail, certificates with fully symbolic attributes and key ids (look-alike names with "
             "different keys included), caller pool nil / 1 / 2 certificates; asserted: accept implies three CERTIFICATE blocks + optional NUL, role "
             "names / v3 / ECDSA-SHA256 / P-256 for each position, issuer = parent subject, SigBy on every link incl. self-signed root, and the path "
-            "model holds for the CONFIGURED roots; RootOfTrustToOptions / getTrustedRoots: pool = exactly the listed certificates",
-    "bounds": {"pem_blocks": "2..4", "trusted_pool": "nil, 1, 2 certificates", "bundles": "<= 2 files + <= 2 inline, <= 2 certificates each"},
+            "model holds for the CONFIGURED roots (a leaf whose SGX extension is marked critical is refused by path validation; Verify fails with one of "
+            "crypto/x509's error types); H02h: a second verification with OTHER configured roots after an accepted first one is anchored in its own pool; "
+            "RootOfTrustToOptions / getTrustedRoots: pool = exactly the listed certificates, error iff a bundle is unreadable or empty (blank and white-space "
+            "inline bundles included)",
+    "bounds": {"pem_blocks": "2..4", "trusted_pool": "nil, empty, 1, 2 certificates", "bundles": "<= 2 files + <= 2 inline, <= 2 certificates each", "history": "2 verifications"},
     "outside": ["Go's path builder itself (contract stub)", "non-PEM text that encoding/pem skips before or between blocks"],
     "assumptions": PKI_ASSUME,
 }
@@ -202,7 +215,9 @@ CHECKS["C03"] = {
             "chain certificates with symbolic attributes, a body that decodes (whole) to one symbolic document and whose exact-key member decodes "
             "to another, independent, symbolic document; asserted: accept implies root self-signed 'Intel SGX Root CA', signer 'Intel SGX TCB "
             "Signing' issued by it, signer path-valid to the configured roots at its own time, CertSig(signer key, raw member, signature), "
-            "TDX/3 resp. TD_QE/2 and non-empty levels of the SIGNED member, and the C04 / C07 reference verdicts evaluated on the SIGNED member",
+            "TDX/3 resp. TD_QE/2 and non-empty levels of the SIGNED member, and the C04 / C07 reference verdicts evaluated on the SIGNED member; H03f: the "
+            "signed member omits fields the unsigned body carries (encoding/json merge semantics); H03g: a response without the signed member, fetched "
+            "after a good one through the same process (pooled decoders / buffers), is rejected",
     "bounds": {"tcb_levels": "0..1 quick, 2 thorough", "module_identities": "0..1", "qe_levels": "1", "header_shapes": "missing / no value / two values / empty / undecodable / nil map"},
     "outside": ["JSON grammar; what exactly encoding/json accepts as a duplicate key (no relation between decoding the body and decoding its member is assumed)",
                 "encoding/json's merge semantics are modelled for three members only (tdxModuleIdentities, fmspc, QE tcbLevels may be omitted by the signed member)"],
@@ -259,6 +274,7 @@ CHECKS["C11"] = {
     "quick": {"match": "^H11", "budget": 900},
     "thorough": {"match": "^[HT]11", "budget": 3000, "query_timeout_ms": 120000},
     "replay": "model",
+    "native_replay": ["H11e_SignatureToDER", "H11f_SignatureToDER_WrongLength"],
     "what": "verify.TdxQuote at the three option levels in the HONEST world: the stubs are constrained to what an honest platform and endpoint "
             "produce (signature predicates true on the harness's own serialisations, report data = SHA256(key||auth)||0, three well-formed "
             "CERTIFICATE blocks with optional trailing NUL, chain root = trusted root, all instants inside all windows, matching identity fields, a "
@@ -273,10 +289,10 @@ CHECKS["C11"] = {
 }
 
 CHECKS["C16"] = {
-    "groups": ["pki", "c16"],
+    "groups": ["pki", "c16", "c13"],
     "quick": {"match": "^H16", "budget": 900},
     "thorough": {"match": "^[HT]16", "budget": 3000, "query_timeout_ms": 120000},
-    "no_native_replay": ["H16a_ParseCopies", "H16b_ParsedQuote_Base", "H16c_ParsedQuote_Collateral", "T16d_ParsedQuote_Revocation", "H16e_SpareCapacity", "H16f_ExactCapacity"],
+    "no_native_replay": ["H16a_ParseCopies", "H16b_ParsedQuote_Base", "H16c_ParsedQuote_Collateral", "T16d_ParsedQuote_Revocation", "H16e_SpareCapacity", "H16f_ExactCapacity", "H16p_PckExtensionsWriteNothingShared"],
     "what": "the engine's heap is concrete per path, so aliasing and write sets are exact: the quote (parsed from bytes: fields are views with large "
             "capacity; built with spare capacity; built with cap == len), the raw input and the option byte strings are frozen over their whole "
             "backing store (to capacity) together with the repository's package-level variables, then verify.TdxQuote (three levels, stubs answering "
